@@ -65,7 +65,7 @@ def gen_query(rng, tier, virtual=False):
 def gen_dup(rng, tier):
     """plant numerically equal evidence-reduced factors: Y with parents S, X with parents S+[Y],
     P(X=x0 | S, Y=y0) = P(Y=y0 | S); evidence X=x0, Y=y0 (collapses value-keyed containers)"""
-    case = gen.rand_bn(rng, nmin=2, nmax=5, maxcard=3, name_kind=rng.choice(["str", "word", "int"]), mincard=2, dup=False)
+    case = gen.rand_bn(rng, nmin=2, nmax=5, maxcard=3, name_kind=rng.choice(["str", "word", "int", "int0"]), mincard=2, dup=False)
     n = len(case["nodes"])
     cp = {c["child"]: c for c in case["cpds"]}
     ys = [v for v in range(n) if 1 <= len(cp[v]["parents"]) <= 2]
@@ -174,7 +174,7 @@ def gen_all_orders(rng, tier):
     """dense networks (a factor built while eliminating one variable is reused by several later eliminations), few query
     variables, and EVERY permutation of the variables to eliminate (at most 120) plus all heuristics"""
     n = rng.randint(4, 5 if tier == "quick" else 6)
-    case = gen.rand_bn(rng, nmin=n, nmax=n, maxcard=3, name_kind=rng.choice(["str", "word", "int"]), shape="gnp_dense", mincard=2)
+    case = gen.rand_bn(rng, nmin=n, nmax=n, maxcard=3, name_kind=rng.choice(["str", "word", "int", "int0"]), shape="gnp_dense", mincard=2)
     q = rng.sample(range(n), rng.choice([1, 1, 2]))
     rest = [v for v in range(n) if v not in q]
     ev = rng.sample(rest, rng.choice([0, 0, 1]))
